@@ -742,13 +742,16 @@ class Executor:
                             if self.feasible(s2, y.z == 0):
                                 out.extend(self.raise_("ZeroDivisionError", s2.fork().assume(y.z == 0), node))
                             s3 = s2.assume(y.z != 0)
-                            # Python floor semantics: sign of the remainder follows the divisor
-                            if isinstance(op, ast.Mod):
-                                r = z3.If(y.z > 0, x.z % y.z, -((-x.z) % (-y.z)))
+                            # Python floor semantics: sign of the remainder follows the divisor.  When the path condition
+                            # fixes the sign of the divisor the plain SMT term is used (same value, simpler term).
+                            pos = (x.z % y.z) if isinstance(op, ast.Mod) else (x.z / y.z)
+                            neg = (-((-x.z) % (-y.z))) if isinstance(op, ast.Mod) else ((-x.z) / (-y.z))
+                            if not self.feasible(s3, y.z < 0):
+                                r = pos
+                            elif not self.feasible(s3, y.z > 0):
+                                r = neg
                             else:
-                                m = z3.If(y.z > 0, x.z % y.z, -((-x.z) % (-y.z)))
-                                r = z3.If(y.z > 0, x.z / y.z, (-x.z) / (-y.z))
-                                _ = m
+                                r = z3.If(y.z > 0, pos, neg)
                             out.extend(self.ok(SV(TInt, r), s3))
                             return out
                         raise OutsideSubset(f"int operator {type(op).__name__}", node)
@@ -1182,6 +1185,38 @@ class Executor:
                 r = h(self, target, value, st, node)
                 if r is not None:
                     return None if r is True else r
+            if isinstance(value, SV) and isinstance(value.td, TSeqT) and len(star) <= 1 and all(isinstance(e, (ast.Name, ast.Starred)) for e in target.elts):
+                # a, *rest, z = <sequence of symbolic length>: ValueError unless it is long enough
+                info = value.td.info
+                n_fixed = len(target.elts) - len(star)
+                short = (info.len(value.z) < n_fixed) if star else (info.len(value.z) != n_fixed)
+                if self.feasible(st, short):
+                    s2 = st.fork().assume(short)
+                    s2.path.append(f"L{getattr(node, 'lineno', 0)}:unpack-length-mismatch")
+                    bad = self.raise_("ValueError", s2, node, "wrong number of values to unpack")
+                    if not self.feasible(st, z3.Not(short)):
+                        return bad
+                else:
+                    bad = []
+                st.assume(z3.Not(short))
+                k = star[0] if star else len(target.elts)
+                n_after = len(target.elts) - k - 1 if star else 0
+                st.env = dict(st.env)
+                for idx, e in enumerate(target.elts[:k]):
+                    st.env[e.id] = self.seq_elem(value, z3.IntVal(idx), st)
+                for j, e in enumerate(target.elts[k + 1:] if star else []):
+                    st.env[e.id] = self.seq_elem(value, info.len(value.z) - n_after + j, st)
+                if star:
+                    mid = smt.fresh_const("mid", value.td.sort)
+                    i = z3.Int(smt.fresh_name("mi"))
+                    st.assume(info.len(mid) == info.len(value.z) - n_fixed)
+                    st.assume(z3.ForAll([i], z3.Implies(z3.And(0 <= i, i < info.len(mid)), info.at(mid, i) == info.at(value.z, i + k)), patterns=[info.at(mid, i)]))
+                    st.env[target.elts[k].value.id] = SV(value.td, mid, True)
+                if bad:
+                    # the failing alternative is reported through a ghost list the statement handlers pick up
+                    pend = list(st.ghost.get("pending_raises", []))
+                    st.ghost["pending_raises"] = pend + bad
+                return None
             raise OutsideSubset(f"unpacking {value!r}", node)
         if isinstance(target, ast.Attribute):
             rs = self.ev(target.value, st)
